@@ -283,6 +283,9 @@ class Interp:
                 value = node.value
             fr = Frame(None, cls.module, st)
             v = self.eval(value, fr)
+            if isinstance(v, (PyList, PyDict, PySet)):
+                v.fresh = False          # class-level containers are pre-existing global heap
+                v.label = f"{cls.name}.<class attribute>"
             for t in targets:
                 if isinstance(t, ast.Name):
                     st[t.id] = v
@@ -645,7 +648,11 @@ class Interp:
                 return FuncRef(fi)
             return BoundMethod(selfobj, fi)
         if tag == "attr":
-            return self.class_state[what.qualname][name]
+            v = self.class_state[what.qualname][name]
+            if isinstance(v, (PyDict, PyList, PySet, SDict)):
+                # a class-level mutable container is global heap: its use is recorded for the C19 frame
+                self.ctx.writes.append(("classattr-read", what.qualname, name))
+            return v
         if tag == "ext":
             return ExtFunc(what.name + "." + name, bound=selfobj if selfobj is not None else clsref)
         raise EngineLimit("member kind")
